@@ -48,6 +48,18 @@ theorem switch_on_reads_are_resolutions_partial (inp : Input) (fuel : Nat) (h : 
     AllJust inp (load inp fuel).1.log :=
   (load_inv inp fuel).just (by unfold ForeignBase at h; simpa using h)
 
+/-- The exclusion class is empty with the switch off: a foreign base can only be used by a guarded read. -/
+theorem switch_off_never_foreign (inp : Input) (fuel : Nat) (hoff : inp.allowed = false) :
+    ¬ ForeignBase inp fuel := by
+  unfold ForeignBase
+  rw [(load_inv inp fuel).nfo hoff]; simp
+
+/-- With the switch off the reads meet the spec at full strength (no exclusion). -/
+theorem reads_meet_spec_off (inp : Input) (fuel : Nat) (hoff : inp.allowed = false) :
+    Spec inp (load inp fuel).1.log := by
+  unfold Spec; rw [hoff]; simp only [Bool.false_eq_true, if_false]
+  exact switch_off_reads_root_only inp fuel hoff
+
 /-- Both sentences together. -/
 theorem reads_meet_spec_partial (inp : Input) (fuel : Nat) (h : ¬ ForeignBase inp fuel) :
     Spec inp (load inp fuel).1.log := by
